@@ -63,6 +63,28 @@ pub fn c01(a: &Args) -> CaseSet {
         let (tb2, want2, vars2, qs2) = (tb.clone(), want.clone(), vars.clone(), qs.clone());
         cs.add(&tb, prog, qs, text, "random-tree", n_operands(&ch), move |obs| expect_value(&tb2, &want2, &vars2, obs, &qs2));
     }
+    // wide levels: 129..200 distinct variables on one level (nothing folds, so the evaluation tracks that many operands
+    // in several machine words), mostly one low-priority operator, tighter operators placed at and around the 64-operand
+    // boundaries and at random places
+    for i in 0..(if a.thorough { 60 } else { 14 }) {
+        let tb = std_tables()[if i % 3 == 2 { 1 } else { 0 }].clone();
+        let sym: Vec<usize> = (0..tb.len()).filter(|k| tb[*k].bin.is_some() && !is_alpha_name(&tb[*k].repr)).collect();
+        let lo = *sym.iter().min_by_key(|k| tb[**k].bin.unwrap().0).unwrap();
+        let tight: Vec<usize> = sym.iter().copied().filter(|k| tb[*k].bin.unwrap().0 > tb[lo].bin.unwrap().0).collect();
+        if tight.is_empty() { continue }
+        let m = 129 + r.below(72);
+        let mut ops: Vec<usize> = vec![lo; m - 1];
+        for b in [63usize, 127, 191] { for d in 0..3 { let j = b + d; if j >= 1 && j - 1 + (i % 3) < m - 1 && r.chance(2, 3) { ops[j - 1 + (i % 3) - if j - 1 + (i % 3) > 0 && i % 2 == 0 { 1 } else { 0 }] = *r.pick(&tight); } } }
+        for _ in 0..r.below(6) { let j = r.below(m - 1); ops[j] = *r.pick(&tight); }
+        let rest: Vec<(usize, Atom)> = (1..m).map(|j| (ops[j - 1], Atom::Var(format!("x{j:03}")))).collect();
+        let ch = Chain { first: Box::new(Atom::Var("x000".into())), rest };
+        let text = render(&ch, &tb, &mut r, &RenderCfg::plain());
+        let vars = sorted_vars(&ch); let want = ref_chain(&ch, &tb, &vars); let nv = vars.len();
+        let qs = vec![Query::Vars, Query::Eval(nv)];
+        let prog = if i % 2 == 0 { Prog::FlatWo(text.clone()) } else { Prog::Flat(text.clone()) };
+        let (tb2, want2, vars2, qs2) = (tb.clone(), want.clone(), vars.clone(), qs.clone());
+        cs.add(&tb, prog, qs, text, "wide-level", m, move |obs| expect_value(&tb2, &want2, &vars2, obs, &qs2));
+    }
     cs
 }
 
@@ -205,6 +227,20 @@ pub fn c02(a: &Args) -> CaseSet {
                         add_expect(&mut cs, &tb, p, vec![Query::Vars, Query::Eval(nv)], format!("{} operands, literal products placed {place}", n_operands(&ch)), "long-level-with-folds", n_operands(&ch), &want, &vars);
                     }
                 }
+            }
+        }
+        // long levels (21..70 operators) mixing equal-priority non-commutative operators with tighter ones, many literals:
+        // the order among equal priorities decides which literals meet
+        for i in 0..(if a.thorough { 40 } else { 10 }) {
+            let tb = std_tables()[if i % 2 == 0 { 0 } else { 1 }].clone();
+            let sym: Vec<usize> = (0..tb.len()).filter(|k| tb[*k].bin.is_some() && !is_alpha_name(&tb[*k].repr)).collect();
+            let m = 21 + r.below(50);
+            let rest: Vec<(usize, Atom)> = (0..m).map(|j| (*r.pick(&sym), if r.chance(3, 5) { Atom::Lit(format!("{}", 1 + (j * 7 + i) % 9)) } else { Atom::Var(["x", "y", "z"][r.below(3)].to_string()) })).collect();
+            let ch = Chain { first: Box::new(Atom::Var("x".into())), rest };
+            let text = render(&ch, &tb, &mut r, &RenderCfg::plain());
+            let vars = sorted_vars(&ch); let want = ref_chain(&ch, &tb, &vars); let nv = vars.len();
+            for p in [Prog::Deep(text.clone()), Prog::Flat(text.clone()), Prog::ToFlat(Box::new(Prog::Deep(text.clone())))] {
+                add_expect(&mut cs, &tb, p, vec![Query::Vars, Query::Eval(nv)], text.clone(), "long-mixed-level", m + 1, &want, &vars);
             }
         }
     }
@@ -452,6 +488,29 @@ pub fn c04(a: &Args) -> CaseSet {
     }
     // derived expressions: neutral elements that still carry names (C10's family; here for the variable lists and arities)
     { let ftb = float_table(); add_named_neutral(&mut cs, &ftb); }
+    // derived expressions: substitutions that leave the variable list as it was (a variable inside a group or a call
+    // replaced by an expression over names already present): the n-th value is still bound to the n-th name everywhere
+    for i in 0..(if a.thorough { 120 } else { 40 }) {
+        let tb = std_tables()[0].clone();
+        let mut cfg = GenCfg::default_for(&tb); cfg.lit_bias = 2; cfg.vars = ["a", "d", "x", "y", "ω"].iter().map(|s| s.to_string()).collect();
+        let (e, te, vs, _) = tree_setup(&mut r, &tb, &cfg, 8, &RenderCfg::plain());
+        if vs.len() < 2 { continue }
+        let v = vs[r.below(vs.len())].clone(); let w = vs[r.below(vs.len())].clone();
+        let star = (0..tb.len()).find(|k| tb[*k].repr == "*").unwrap(); let plus = (0..tb.len()).find(|k| tb[*k].repr == "+").unwrap();
+        let rep = match i % 4 {
+            0 => Chain { first: Box::new(Atom::Lit("3".into())), rest: vec![(star, Atom::Var(v.clone()))] },
+            1 => Chain { first: Box::new(Atom::Var(v.clone())), rest: vec![(star, Atom::Var(v.clone()))] },
+            2 => Chain { first: Box::new(Atom::Var(v.clone())), rest: vec![(plus, Atom::Var(w.clone()))] },
+            _ => Chain { first: Box::new(Atom::Var(w.clone())), rest: vec![(star, Atom::Var(v.clone())), (plus, Atom::Lit("1".into()))] },
+        };
+        let rt = render(&rep, &tb, &mut r, &RenderCfg::plain());
+        let mk = |t: String, k: usize| match k % 3 { 0 => Prog::Deep(t), 1 => Prog::Flat(t), _ => Prog::FlatWo(t) };
+        let map = vec![(v.clone(), rep.clone())];
+        let want_chain = subs_chain(&e, &map);
+        let wv = sorted_vars(&want_chain); let want = ref_chain(&want_chain, &tb, &wv); let nv = wv.len();
+        let prog = Prog::Subs(Box::new(mk(te.clone(), i)), vec![(v.clone(), mk(rt.clone(), i / 3))]);
+        add_expect(&mut cs, &tb, prog, vec![Query::Vars, Query::Eval(nv)], format!("{te} with {v}->{rt}"), "subs-keeps-the-names", n_operands(&want_chain), &want, &wv);
+    }
     cs
 }
 
@@ -460,7 +519,7 @@ pub fn c07(a: &Args) -> CaseSet {
     let mut cs = CaseSet::default();
     let mut r = Rng::new(a.seed ^ 0x07);
     let t0 = std_tables()[0].clone();
-    for text in ["max(1, min(2,3)))", "max(1, min(2,3)", "", "   ", "1+", "(1+2", "1+2)", "1 2", "x y", "1+$", "2 (3)", "()", "sin", "1 + * 2", "a12 (1)", "fi.g", "3.4.", "1..2", ")(", "(1)(2)", "1 + (2))("] {
+    for text in ["max(1, min(2,3)))", "max(1, min(2,3)", "", "   ", "1+", "(1+2", "1+2)", "1 2", "x y", "1+$", "2 (3)", "()", "sin", "1 + * 2", "a12 (1)", "fi.g", "3.4.", "1..2", ")(", "(1)(2)", "1 + (2))(", "1 2 *", "x y /", "2 3 ^", "(1+2) x *", "x 2 atan2", "{a} {b} *"] {
         for prog in [Prog::Flat(text.into()), Prog::FlatWo(text.into()), Prog::Deep(text.into())] {
             cs.add(&t0, prog, vec![Query::Vars], format!("corpus: {text:?}"), "corpus", 2, |obs| (Some(obs[0] == Obs::E), format!("accepted or crashed: {}", pretty_obs(&obs[0]))));
         }
@@ -485,6 +544,14 @@ pub fn c07(a: &Args) -> CaseSet {
         for ins in ["\\", "$", "?", "\u{7}", "»", "\t", "\n", "\u{a0}", "\u{2003}", "\u{3000}", "\u{85}"] { let mut t: String = chars[..pos].iter().collect(); t.push_str(ins); t.extend(chars[pos..].iter()); damaged.push(("insert-illegal-char", t)); }
         let binops: Vec<&OpSpec> = tb.iter().filter(|o| o.bin.is_some()).collect();
         damaged.push(("append-binop", format!("{plain} {}", r.pick(&binops).repr)));
+        // two damages whose effects on the operand/operator count cancel: an extra operand AND a trailing operator
+        // (a text ending in an operator is rejected whatever comes before it)
+        for op in [r.pick(&binops).repr.clone(), tb.iter().filter(|o| o.bin.is_some() && !o.unary).map(|o| o.repr.clone()).next().unwrap_or_else(|| r.pick(&binops).repr.clone())] {
+            damaged.push(("ends-in-operator", format!("{plain} 7 {op}")));
+            damaged.push(("ends-in-operator", format!("7 {plain} {op}")));
+            damaged.push(("ends-in-operator", format!("({plain}) x {op}")));
+            damaged.push(("ends-in-operator", format!("x 7 {op}")));
+        }
         damaged.push(("extra-operand-after", format!("{plain} 7")));
         damaged.push(("extra-operand-before", format!("7 {plain}")));
         damaged.push(("blank", " ".repeat(r.below(4))));
@@ -714,16 +781,27 @@ pub fn c12d(a: &Args) -> CaseSet {
         if nv == 0 { continue }
         let idx = r.below(nv);
         let base = match i % 3 { 0 => Prog::Flat(text.clone()), 1 => Prog::Deep(text.clone()), _ => Prog::ToDeep(Box::new(Prog::Flat(text.clone()))) };
-        let derived = Prog::Partial(vec![idx], 0, Box::new(base));
-        let re = if i % 2 == 0 { Prog::ReFlat(Box::new(derived.clone())) } else { Prog::ReDeep(Box::new(derived.clone())) };
+        // derived by differentiation, by substitution (also substitutions that leave every variable list as it was: the
+        // replaced variable inside a group, replaced by an expression over the same names) and by operator application
+        let v = vars[idx].clone(); let w = vars[(idx + 1) % nv].clone();
+        let reps = [format!("{v}*{v}"), format!("{v}+{w}"), format!("sin({v})"), "2.5".to_string(), format!("({w}-{v})/2")];
+        let alldev: Vec<(Prog, &'static str)> = vec![
+            (Prog::Partial(vec![idx], 0, Box::new(base.clone())), "reparse-derivative"),
+            (Prog::Subs(Box::new(base.clone()), vec![(v.clone(), if i % 3 == 1 { Prog::Deep(reps[i % reps.len()].clone()) } else { Prog::Flat(reps[i % reps.len()].clone()) })]), "reparse-substituted"),
+            (Prog::Subs(Box::new(Prog::Un("sin".into(), Box::new(base.clone()))), vec![(v.clone(), Prog::Flat(reps[(i + 1) % reps.len()].clone()))]), "reparse-substituted"),
+            (Prog::Arith(i % 5, Box::new(base.clone()), Box::new(Prog::Deep(reps[(i + 2) % reps.len()].clone()))), "reparse-operated"),
+        ];
+        for (k, (derived, family)) in alldev.into_iter().enumerate() {
+        if k > 0 && !(a.thorough || i % 2 == 0 || i < 12) { continue }
+        let re = if (i + k) % 2 == 0 { Prog::ReFlat(Box::new(derived.clone())) } else { Prog::ReDeep(Box::new(derived.clone())) };
         // oracle: the reparsed expression has the value of the printed one wherever the printed text is made of literals;
         // its variables are those of the printed one that still occur in the text (F6: the others vanish)
         let qs = vec![Query::Vars, Query::Relaxed(nv), Query::Unparse];
         let (tb2, derived2) = (tb.clone(), derived.clone());
-        cs.add(&tb, re, qs, format!("reparse of {}", pretty_prog(&derived)), "reparse-derivative", 3, move |obs| {
+        cs.add(&tb, re, qs, format!("reparse of {}", pretty_prog(&derived)), family, 3, move |obs| {
             set_table(&tb2);
             let (_, o) = observe(&derived2, &[Query::Vars, Query::Unparse, Query::Eval(nv)]);
-            let (ovars, printed, oval) = match (&o[0], &o[1], &o[2]) { (Obs::S(v), Obs::Str(s), Obs::T(t)) => (v.clone(), s.clone(), t.clone()), _ => return (None, "the derivative itself failed".into()) };
+            let (ovars, printed, oval) = match (&o[0], &o[1], &o[2]) { (Obs::S(v), Obs::Str(s), Obs::T(t)) => (v.clone(), s.clone(), t.clone()), _ => return (None, "the derived expression itself failed".into()) };
             if printed.contains('§') { return (None, "printed text contains a folded non-literal value".into()) }
             match (&obs[0], &obs[1]) {
                 (Obs::S(rv), _) => {
@@ -736,6 +814,7 @@ pub fn c12d(a: &Args) -> CaseSet {
                 other => (Some(false), format!("printed text {printed:?} does not parse: {}", pretty_obs(other.0))),
             }
         });
+        }
     }
     cs
 }
@@ -1006,7 +1085,10 @@ pub fn c09(a: &Args) -> CaseSet {
     let tb = float_table();
     // products of powers and sums at one level: every index sequence of length 2 and 3, iterated, against central
     // differences of the derivative one step shorter (variables vanish on the way; mixed partials in both orders)
-    for text in ["x*y^2", "(a+b)*c^3", "x^2*y^3*z", "a*b*c", "x*y^2+z*x", "y^2*x-z/y", "a^2*c^3+b", "x*z^2/y"] {
+    // ... and expressions whose derivative with respect to one variable is the expression itself (exp of a sum with slope 1),
+    // where "nothing changed" must not be taken for "nothing left to do"
+    for text in ["x*y^2", "(a+b)*c^3", "x^2*y^3*z", "a*b*c", "x*y^2+z*x", "y^2*x-z/y", "a^2*c^3+b", "x*z^2/y",
+                 "exp(x+2*y)", "exp(x+y)*z", "exp(y+x*z)", "exp(x+3*y)+exp(z+2*x)", "x+exp(y+3*z)", "exp(x)*exp(2*y)", "sinh(x)+cosh(x)+y*x", "exp(a+b*b+2*c)"] {
         set_table(&tb);
         use exmex::Express;
         let fx = FE::parse_wo_compile(Box::leak(text.to_string().into_boxed_str())).unwrap();
